@@ -172,6 +172,36 @@ def run(chk, tier):
         for x in H.walk(h["body"]):
             if H.kind(x) == "mcall" and x[3] in MUT - {"reserve"} and H.show(x[4], 4).endswith("self.read_buffer"):
                 touch.append(f"{h['path'].split('::')[-1]}: self.read_buffer.{x[3]}() line {x[1]}")
+    # the synchronous and asynchronous twins of send / receive do the same things (same calls up to `_async`, await plumbing ignored);
+    # close differs by design (std `close` of the socket wrapper vs tokio `shutdown`)
+    import collections
+    IGN = re.compile(r"into_future|IntoFuture|Future|poll|Pin|get_mut|branch|from_residual|from_output|Ok$|Err$|Some$|timeout$|context$|map_err$|into$|from$|new_unchecked|Context|as_mut$|deref|^fail$|build$")
+
+    def call_sig(hh):
+        c_ = collections.Counter()
+        for cal, x in H.calls(hh["body"]):
+            if not cal:
+                continue
+            nm = re.sub(r"_async$", "", cal.split("::")[-1])
+            if IGN.search(nm) or IGN.search(cal.split("::")[-2] if "::" in cal else ""):
+                continue
+            c_[nm] += 1
+        return c_
+    twins = {}
+    for h in d["hir"]:
+        m_ = re.match(r"<dicom_ul::association::(client|server)::(Async)?(Client|Server)Association<.*> as dicom_ul::association::private::(Sync|Async)AssociationSealed<.*>>::(\w+)$", h["path"])
+        if m_:
+            twins.setdefault((m_.group(1), m_.group(5)), {})["async" if m_.group(2) else "sync"] = h
+    n_tw = 0
+    for (side, meth), v in sorted(twins.items()):
+        if len(v) != 2 or meth not in ("send", "receive", "close"):
+            continue
+        n_tw += 1
+        a_, b_ = call_sig(v["sync"]), call_sig(v["async"])
+        want_diff = ({"close": 1}, {"shutdown": 1}) if meth == "close" else ({}, {})
+        chk.expect((dict(a_ - b_), dict(b_ - a_)) == want_diff, "wire-loop", f"{side}::{meth}", "(i)sync-and-async-twins-make-the-same-calls", {"only sync": want_diff[0], "only async": want_diff[1]},
+                   {"only sync": dict(a_ - b_), "only async": dict(b_ - a_)}, loc=C.fn_loc(v["sync"]))
+    chk.floor("wire-loop", "sync/async twin pairs", n_tw, 6)
     chk.expect(not touch, "wire-loop", "associations", "(h)only-the-wire-readers-consume-the-carried-buffer", "no clear / advance / truncate / split of self.read_buffer in client.rs / server.rs", touch)
     # the parser under the loops: a partial PDU must come back as "incomplete", never as a panic or a misread —
     # every cursor read needs a dominating availability proof (same GUARD as C25's pdu-budget)
